@@ -252,7 +252,7 @@ Proof.
   set (roots := map fst (l_order (level_of cfg top))). set (roots' := map fst (l_order (level_of cfg' top))) in *.
   assert (Hr : forall c, isX c = false -> memb c roots' = memb c roots).
   { intros c Hc. unfold roots, roots'. rewrite Hord. apply memb_map_fst_filter. exact Hc. }
-  assert (Hs0 : srel isX top (log_tick s_init top initial roots) (log_tick s_init top initial roots')).
+  assert (Hs0 : srel isX top (log_tick (set_wake s_init top []) top initial roots) (log_tick (set_wake s_init top []) top initial roots')).
   { split; [intros; reflexivity|]. split; [intros; reflexivity | reflexivity]. }
   pose proof (tick_noninterference cfg cfg' devf (on_tick_level cfg devf fuel) (on_tick_level cfg' devf fuel) isX top initial roots roots' []
                 _ _ Hord Hcon Hk Hsep Hext Hexp Hr Hs0) as Hn.
